@@ -35,6 +35,11 @@ func parse(repo, rel string) *ast.File {
 	if err != nil {
 		die("cannot parse %s: %v", rel, err)
 	}
+	// behaviour-preserving normal form (astnorm_gen.go); limits spelled as constants of the same file are
+	// replaced by their literal. Identifiers are still matched and printed by NAME in this tool.
+	o := AllNorm
+	o.InlineConsts = true
+	NormalizeFile(fset, f, o)
 	return f
 }
 
@@ -128,6 +133,9 @@ func lenBounds(n ast.Node) (lo, hi int, found bool) {
 		}
 		l, ok1 := be.X.(*ast.BinaryExpr)
 		r, ok2 := be.Y.(*ast.BinaryExpr)
+		if ok1 && ok2 && l.Op == token.GTR && r.Op == token.LSS {
+			l, r = r, l // the operands of the pure disjunction in either order
+		}
 		if !ok1 || !ok2 || l.Op != token.LSS || r.Op != token.GTR {
 			return true
 		}
@@ -155,6 +163,9 @@ func runeRanges(n ast.Node) [][2]int {
 		}
 		l, ok1 := be.X.(*ast.BinaryExpr)
 		r, ok2 := be.Y.(*ast.BinaryExpr)
+		if ok1 && ok2 && l.Op == token.LEQ && r.Op == token.GEQ {
+			l, r = r, l // the operands of the pure conjunction in either order
+		}
 		if !ok1 || !ok2 || l.Op != token.GEQ || r.Op != token.LEQ {
 			return true
 		}
